@@ -182,7 +182,10 @@ fn run_async_validators(
     context: Arc<ValidationContext>,
     validators: Vec<Box<dyn ValidatorAsync>>,
 ) -> anyhow::Result<HashMap<PathBuf, Vec<Violation>>> {
+    #[cfg(not(blockwatch_verif))]
     let tokio_runtime = tokio::runtime::Runtime::new()?;
+    #[cfg(blockwatch_verif)]
+    let tokio_runtime = crate::verif_hooks::build_runtime()?;
     tokio_runtime.block_on(async move {
         let mut tasks = tokio::task::JoinSet::new();
         for validator in validators {
